@@ -264,20 +264,23 @@ impl JobServer {
                 None
             };
             match from_env {
-                Some(cheat_fds) => cheat_fds,
+                Some(cheat_fds) => (cheat_fds, false),
                 None => {
                     let (a, b) = make_pipe(102).map_err(RedoError::opaque_error)?;
                     env::set_var(JobServer::ENV_CHEATFDS, format!("{},{}", a, b));
-                    (a, b)
+                    ((a, b), true)
                 }
             }
         };
+        let (cheat_fds, own_cheat_pipe) = cheat_fds;
         match token_fds {
             Some(token_fds) => Ok(JobServer {
                 params: Rc::new(ServerParams {
                     token_fds,
                     cheat_fds,
                     top_level: 0,
+                    // Somebody gave us a token pipe but no cheat pipe: not a redo.
+                    make_parent: own_cheat_pipe,
                 }),
                 state: Rc::new(RefCell::new(ServerState::default())),
                 dropped: false,
@@ -296,6 +299,7 @@ impl JobServer {
                         token_fds,
                         cheat_fds,
                         top_level: realmax,
+                        make_parent: false,
                     }),
                     state,
                     dropped: false,
@@ -615,6 +619,8 @@ struct ServerParams {
     token_fds: (RawFd, RawFd),
     cheat_fds: (RawFd, RawFd),
     top_level: i32,
+    /// The jobserver we joined belongs to a parent that speaks only the make protocol.
+    make_parent: bool,
 }
 
 /// Mutable information about a `JobServer`.
@@ -798,6 +804,35 @@ impl JobServerHandle {
             done: false,
             state: self.state.clone(),
         }
+    }
+
+    /// Get ready to exit under a parent that speaks only the make jobserver protocol.
+    ///
+    /// make assumes that a child ends the way it began: holding the one job slot it was
+    /// started with, everything else back in the pipe.  A redo parent can be told
+    /// otherwise through the cheat pipe (see `force_return_tokens`); a make parent
+    /// cannot, because that pipe is our own invention and nobody above us reads it.  If
+    /// our own token went into make's pipe while we waited for a lock and never came
+    /// back to us (what we held afterwards was borrowed, or was used up by a child that
+    /// had borrowed), exiting now would leave make with one token more than it started
+    /// with.  So take one back first.
+    pub async fn settle_with_make_parent(&self) -> Result<(), RedoError> {
+        if !self.params.make_parent {
+            return Ok(());
+        }
+        {
+            let mut state = self.state.borrow_mut();
+            if state.cheats > 0 {
+                // a borrowed slot was never in anybody's pipe: it just goes away
+                let cheats = state.cheats;
+                state.destroy_tokens(cheats);
+                state.cheats = 0;
+            }
+        }
+        if !self.has_token() {
+            self.ensure_token("exit").await;
+        }
+        Ok(())
     }
 
     /// Return a future that blocks until this process has a job token.
